@@ -13,6 +13,7 @@
 //!   sl byscore <min> <max>          range_by_score -> items
 //!   sl len                          len
 //!   sl dump
+//!   zs zaddmany|zremmany|popn <key> …  StorageEngine::{zadd_many, zrem_many, zpop}: one storage call per command
 //!   zs <op> <key> ...               StorageEngine::{zadd,zrem,zscore,zrank,zrange,zrangebyscore,zcount,
 //!                                   zincrby,zcard,exists} on database 0; `zs pop <key> min|max` is the
 //!                                   composition used by handle_zpopmin/handle_zpopmax (zrange 0 0 / -1 -1, then zrem);
@@ -127,6 +128,27 @@ fn step(st: &mut St, ws: &[&str]) -> String {
                 },
                 ("zincrby", [m, s]) => match (of_hex(m), bits(s)) {
                     (Some(m), Some(s)) => res(e.zincrby(0, key, m, s), show_score),
+                    _ => bad(),
+                },
+                // the storage calls the handlers make since db4c992: one call per command
+                ("zaddmany", [ps]) => {
+                    let mut v: Vec<(f64, Vec<u8>)> = Vec::new();
+                    for p in ps.split(',') {
+                        let mut it = p.split(':');
+                        match (it.next().and_then(of_hex), it.next().and_then(bits)) {
+                            (Some(m), Some(sc)) => v.push((sc, m)),
+                            _ => return bad(),
+                        }
+                    }
+                    res(e.zadd_many(0, key, v), |n| n.to_string())
+                }
+                ("zremmany", [ms]) => match hex_list(ms) {
+                    Some(ms) => res(e.zrem_many(0, &key, &ms), |n| n.to_string()),
+                    None => bad(),
+                },
+                ("popn", [which, n]) => match (*which, n.parse::<usize>()) {
+                    ("min", Ok(n)) => res(e.zpop(0, &key, n, true), |v| show_items(&v)),
+                    ("max", Ok(n)) => res(e.zpop(0, &key, n, false), |v| show_items(&v)),
                     _ => bad(),
                 },
                 ("zcard", []) => res(e.zcard(0, &key), |n| n.to_string()),
